@@ -1,6 +1,7 @@
 package props
 
 import (
+	"crypto/ed25519"
 	"encoding/json"
 	"fmt"
 	"net/http"
@@ -28,6 +29,9 @@ type c09Live struct {
 	T      int      `json:"t"`
 	RawLog bool     `json:"raw_log"` // the reinit message contains the whole board log, not only the part before the first signing proposal
 	Muts   []c09Mut `json:"muts"`
+	// Foreign (used by C10): instead of the mutants, every genuine message is shown to the node as posted by another
+	// registered participant S under S's own name and with S's own valid signature - the request inside still names P
+	Foreign bool `json:"foreign,omitempty"`
 }
 
 func c09GenLive(rt *rapid.T) c09Live {
@@ -103,6 +107,26 @@ func c09RunLive(t *testing.T, st *vstat.Stats, p c09Live) (v *viol) {
 		checked := 0
 		tryMutants := func(genuine storage.Message) bool {
 			before := kvSnapshot(nd)
+			if p.Foreign {
+				pIdx := nameIndex(tr, genuine.SenderAddr)
+				pid, ok := participantIDOf(genuine.Data)
+				if pIdx < 0 || !ok || pid != pIdx {
+					return true
+				}
+				for d := 1; d < p.N; d++ {
+					sIdx := (pIdx + d) % p.N
+					mm := storage.Message{DkgRoundID: genuine.DkgRoundID, Event: genuine.Event, Data: genuine.Data, SenderAddr: tr.Names[sIdx], Signature: ed25519.Sign(tr.Keys[sIdx].Priv, genuine.Data)}
+					perr := nd.Svc.ProcessMessage(mm)
+					changed := existingStateChanged(before, kvSnapshot(nd))
+					if perr == nil || len(changed) > 0 {
+						v = violf("forged-participant-after-reinit:"+genuine.Event, "node that processed a re-initialisation (raw log=%v) and kept running: %s's %s (ParticipantId=%d) signed and sent by %s was processed (err=%v, changed %v)", p.RawLog, genuine.SenderAddr, genuine.Event, pid, tr.Names[sIdx], perr, changed)
+						return false
+					}
+					checked++
+					st.Class("live-forged-participant:" + genuine.Event)
+				}
+				return true
+			}
 			for _, mu := range p.Muts {
 				mm, ok := c09Apply(tr, genuine, mu)
 				if !ok {
